@@ -307,7 +307,10 @@ func checkAll(s *PebbleScanner, m *storeModel, scope checkScope, withExport bool
 		}
 	}
 	// by entropy range
-	for _, g := range entropyGrid {
+	for gi, g := range entropyGrid {
+		if stride > 1 && gi != 0 && gi != 2 {
+			continue // bulk-loaded models: two ranges (each costs one record decode per signature)
+		}
 		got, err := s.ScanByEntropyRange(g[0], g[1])
 		if err != nil {
 			return vs.Violationf("C06/entropy-error", "%sScanByEntropyRange(%v,%v): %v", tag, g[0], g[1], err)
